@@ -494,10 +494,17 @@ def str_strict_coercion_loader(data):
     raise TypeLoadError(str, data)
 
 
+def str_lax_coercion_loader(data):
+    try:
+        return str(data)
+    except ValueError as e:  # e.g. int exceeding the limit for integer string conversion
+        raise ValueLoadError(str(e), data)
+
+
 STR_PROVIDER = ScalarProvider(
     target=str,
     strict_coercion_loader=str_strict_coercion_loader,
-    lax_coercion_loader=str,
+    lax_coercion_loader=str_lax_coercion_loader,
     dumper=as_is_stub,
     json_schema=JSONSchema(type=JSONSchemaType.INTEGER),
 )
